@@ -556,6 +556,20 @@ def rule_float_conversion(repo: Repo) -> List[Ob]:
                                 for gen in anc.generators:
                                     if arg.id in {n.id for n in ast.walk(gen.target) if isinstance(n, ast.Name)}:
                                         rts |= gdefs.roots(gen.iter)
+                    if isinstance(arg, ast.Name) and arg.id in g.params():
+                        # the converted value is a parameter of a helper: what do the callers on the route pass?
+                        pos = g.params().index(arg.id) - (1 if g.cls is not None and "staticmethod" not in [src(d0) for d0 in g.node.decorator_list] else 0)
+                        for caller in route:
+                            cdefs = Defs(caller.node, caller.params()[0] if caller.params() and caller.cls is not None else None)
+                            for cc in _calls(caller.node, g.name):
+                                a = cc.args[pos] if 0 <= pos < len(cc.args) else next((kw.value for kw in cc.keywords if kw.arg == arg.id), None)
+                                if a is not None:
+                                    rts |= cdefs.roots(a)
+                                    for anc in ancestors(cc):
+                                        if isinstance(anc, (ast.DictComp, ast.ListComp, ast.SetComp, ast.GeneratorExp)):
+                                            for gen in anc.generators:
+                                                if isinstance(a, ast.Name) and a.id in {n.id for n in ast.walk(gen.target) if isinstance(n, ast.Name)}:
+                                                    rts |= cdefs.roots(gen.iter)
                     if any(x.endswith("atoms") for x in rts if x.startswith("call:")):
                         modes.append("deep")
                         continue
